@@ -93,6 +93,12 @@ def loss [Sub α] [Mul α] [Div α] [Neg α] [NatCast α] [OfNat α 0] [LT α] [
     (sqrt : α → α) (s : State α) (real : Bool) : Option α :=
   lossN sqrt s (if real then s.npoints else nRequested s)
 
+/-- `loss(real, n)` is NaN in the code when `n ≥ min_npoints` although fewer than `min_npoints`
+values are held (`std = inf`) and `atol` is infinite: `inf / inf`.  (`max(aloss, rloss)` returns its
+first argument unless the second is greater, so a NaN `rloss` alone does not surface.) -/
+def lossIsNaN (s : State α) (n : Nat) : Bool :=
+  decide (s.minNpoints ≤ n) && decide (s.npoints < s.minNpoints) && s.atol.isNone
+
 inductive Op (α : Type) where
   | tell (k : Nat) (v : α)
   | tellPending (k : Nat)
